@@ -1,4 +1,5 @@
 import OpenHTF.Proofs.Lemmas.Exec
+import OpenHTF.Proofs.Lemmas.ExecGrow
 /-
 C01 — no false PASS. For every test program (any tree), every behaviour oracle, every configuration.
 -/
@@ -263,5 +264,109 @@ theorem c01_pass_record_certifies (cfg : Cfg) (o : Opts) (inSub isLast : Bool) (
     rw [hraw] at h
     cases r <;> cases inSub <;> cases isLast <;> cases praise <;> cases anyRaise <;> cases mp <;> cases failDiag <;>
       cases hs : o.stopOnMeasFail <;> simp [hs] at h ⊢
+
+/-- No record is ever removed or rewritten: whatever node is executed, in whatever mode, the record
+    list afterwards extends the record list before. -/
+theorem c01_records_only_appended (cfg : Cfg) (n : Node) (sub : Option Nat) (td : Bool) (st : St) :
+    Grows st (exec cfg n sub td st).1 :=
+  exec_preserves cfg (Grows st)
+    (fun p sub s h => h.trans (runPhase_grows cfg p sub s))
+    (fun p sub s h => h.trans ⟨[{ id := p.id, outcome := .skip, result := .pr .skip, subtest := sub }], by simp [skipPhase]⟩)
+    (fun c sub s h => h.trans ⟨[], by simp [evalCheckpoint, finishNode_phases]⟩)
+    (fun a b h hp _ => by obtain ⟨rs, e⟩ := h; exact ⟨rs, by rw [hp, e]⟩)
+    n sub td st (Grows.refl st)
+
+
+/-- Accounted (partial): when a node outside any subtest returns CONTINUE, every phase it declares unconditionally
+    (`mustRun`: any depth of sequences and groups, setup / main / teardown; not below a branch or subtest; no `run_if`)
+    has at least one record of its own in the run's record list. Full statement (checked by the Lean spec on every real
+    observation, `Driver/C01.lean: declared-phase-unaccounted`): also phases below taken branches, inside subtests that did
+    not fail, and phases whose `run_if` was evaluated true; missing here: the subtest-failure bookkeeping and the run_if
+    oracle. Together with `c01_no_false_pass` (PASS ⇒ no FAIL / ERROR record): a passing run has run every such phase. -/
+theorem c01_declared_phases_accounted_partial (cfg : Cfg) (hc : 0 < cfg.defaultRepeatLimit) :
+    ∀ (n : Node) (td : Bool) (st : St), (exec cfg n none td st).2 = .cont →
+      ∀ p ∈ mustRun n, ∃ r ∈ (exec cfg n none td st).1.phases, r.id = p.id
+  | .phase q, td, st, _, p, hp => by
+    simp only [mustRun] at hp
+    split at hp
+    · rename_i hq
+      simp only [List.mem_singleton] at hp; subst hp
+      simp only [exec, execPhaseNode, Option.isSome_none, Bool.and_false, Bool.false_and, Bool.false_eq_true, if_false]
+      exact runPhase_leaves_record cfg hc p none st (by simpa using hq)
+    · simp at hp
+  | .checkpoint _, _, _, _, p, hp => by simp [mustRun] at hp
+  | .subtest _ _, _, _, _, p, hp => by simp [mustRun] at hp
+  | .branch _ _ _, _, _, _, p, hp => by simp [mustRun] at hp
+  | .seq ns, td, st, h, p, hp => by
+    simp only [mustRun] at hp
+    simp only [exec] at h ⊢
+    cases td
+    · simp only [Bool.false_eq_true, if_false] at h ⊢; exact lAb ns st h p hp
+    · simp only [if_true] at h ⊢; exact lTd ns st h p hp
+  | .group s m t, td, st, h, p, hp => by
+    simp only [mustRun, List.mem_append] at hp
+    simp only [exec, Option.isSome_none, Bool.and_false, Bool.false_and, Bool.or_false, Bool.not_false, if_true] at h ⊢
+    cases td
+    · simp only [Bool.false_eq_true, if_false] at h ⊢
+      split at h
+      · rename_i hne; rw [h] at hne; simp at hne
+      · rename_i hcont
+        simp only [hcont] at ⊢
+        have hcont' : (execAb cfg s none st).2 = .cont := by simpa using hcont
+        obtain ⟨h2, h3⟩ := Ret.max_cont h
+        rcases hp with hp | hp | hp
+        · obtain ⟨r, hr, hid⟩ := lAb s st hcont' p hp
+          exact ⟨r, (execTd_grows cfg t none _).mem ((execAb_grows cfg m none _).mem hr), hid⟩
+        · obtain ⟨r, hr, hid⟩ := lAb m _ h2 p hp
+          exact ⟨r, (execTd_grows cfg t none _).mem hr, hid⟩
+        · exact lTd t _ h3 p hp
+    · simp only [if_true] at h ⊢
+      split at h
+      · rename_i hne; rw [h] at hne; simp at hne
+      · rename_i hcont
+        simp only [hcont] at ⊢
+        have hcont' : (execTd cfg s none st).2 = .cont := by simpa using hcont
+        obtain ⟨h2, h3⟩ := Ret.max_cont h
+        rcases hp with hp | hp | hp
+        · obtain ⟨r, hr, hid⟩ := lTd s st hcont' p hp
+          exact ⟨r, (execTd_grows cfg t none _).mem ((execTd_grows cfg m none _).mem hr), hid⟩
+        · obtain ⟨r, hr, hid⟩ := lTd m _ h2 p hp
+          exact ⟨r, (execTd_grows cfg t none _).mem hr, hid⟩
+        · exact lTd t _ h3 p hp
+where
+  lAb : ∀ (ns : List Node) (st : St), (execAb cfg ns none st).2 = .cont →
+      ∀ p ∈ mustRunL ns, ∃ r ∈ (execAb cfg ns none st).1.phases, r.id = p.id
+    | [], _, _, p, hp => by simp [mustRunL] at hp
+    | n :: ns, st, h, p, hp => by
+      simp only [mustRunL, List.mem_append] at hp
+      simp only [execAb] at h ⊢
+      split at h
+      · rename_i hne; rw [h] at hne; simp at hne
+      · rename_i hcont
+        have hcont' : (exec cfg n none false st).2 = .cont := by simpa using hcont
+        simp only [hcont]
+        rcases hp with hp | hp
+        · obtain ⟨r, hr, hid⟩ := c01_declared_phases_accounted_partial cfg hc n false st hcont' p hp
+          exact ⟨r, (execAb_grows cfg ns none _).mem hr, hid⟩
+        · exact lAb ns _ h p hp
+  lTd : ∀ (ns : List Node) (st : St), (execTd cfg ns none st).2 = .cont →
+      ∀ p ∈ mustRunL ns, ∃ r ∈ (execTd cfg ns none st).1.phases, r.id = p.id
+    | [], _, _, p, hp => by simp [mustRunL] at hp
+    | n :: ns, st, h, p, hp => by
+      simp only [mustRunL, List.mem_append] at hp
+      simp only [execTd] at h ⊢
+      obtain ⟨h1, h2⟩ := Ret.max_cont h
+      rcases hp with hp | hp
+      · obtain ⟨r, hr, hid⟩ := c01_declared_phases_accounted_partial cfg hc n true st h1 p hp
+        exact ⟨r, (execTd_grows cfg ns none _).mem hr, hid⟩
+      · exact lTd ns _ h2 p hp
+
+/-- the hypotheses are satisfiable on a non-trivial tree: a group with setup, main and teardown phases returns CONTINUE
+    and declares three phases -/
+example :
+    let ok : Phase := { id := 1, beh := fun _ => { raw := .ret .cont } }
+    let n : Node := .group [.phase ok] [.phase { ok with id := 2 }, .seq [.phase { ok with id := 4 }]] [.phase { ok with id := 3 }]
+    (exec {} n none false {}).2 = .cont ∧ (mustRun n).map (·.id) = [1, 2, 4, 3] ∧
+      ((exec {} n none false {}).1.phases.map (·.id)) = [1, 2, 4, 3] := by decide
 
 end OpenHTF.Exec
